@@ -34,7 +34,7 @@ def run(db, chk) -> None:
     _backward(db, chk, cs, cg)
     check_end_coherence(db, chk, "C13.R5-end-coherence")
     check_publish_order(db, chk, "C13.R6-publish-after-build")
-    chk.floor("C13.R6-publish-after-build", 2)
+    chk.floor("C13.R6-publish-after-build", 3)
     check_recompute_before_publish(db, chk, "C13.R7-recompute-before-publish")
     check_move_is_complete(db, chk, "C13.R8-move-is-complete")
 
@@ -266,8 +266,7 @@ def _link(db, chk, cs):
     chk.analysed_add("functions", [f"{CS}:CallStackGraph._link_cpu_and_gpu"])
 
 
-def _backward(db, chk, cs, cg):
-    rule = "C13.R4-backward-attachment"
+def _backward(db, chk, cs, cg, rule="C13.R4-backward-attachment"):
     f = cg.func("CallGraph._connect_stacks")
     sel = H.find_match("self.mapping['label'].isin(['bwd', 'main'])", f) + H.find_match("self.mapping['label'].isin(['main', 'bwd'])", f)
     srt = [c for c in H.calls(f) if isinstance(c.func, ast.Attribute) and c.func.attr == "sort_values" and (lit(c.args[0]) if c.args else lit(H.kwarg(c, "by"))) in ("label", ["label"])
@@ -431,6 +430,23 @@ def check_publish_order(db, chk, rule: str) -> None:
             events.append((pos_of(c), "mutate", "CallStackGraph(...)"))
         elif isinstance(c.func, ast.Attribute) and c.func.attr == "save_call_stack_to_dataframe":
             events.append((pos_of(c), "publish", ast.unparse(c)[:70]))
+            recv = H.expand(f, c.func.value)
+            if isinstance(recv, ast.Name):
+                # the nearest preceding definition in the same block
+                st_ = c
+                while cg.parent.get(id(st_)) is not None and not isinstance(st_, ast.stmt):
+                    st_ = cg.parent.get(id(st_))
+                blk = cg.parent.get(id(st_))
+                for fld in ("body", "orelse"):
+                    seq = getattr(blk, fld, None)
+                    if isinstance(seq, list) and st_ in seq:
+                        for prev in reversed(seq[:seq.index(st_)]):
+                            if isinstance(prev, ast.Assign) and len(prev.targets) == 1 and H.name_id(prev.targets[0]) == recv.id:
+                                recv = prev.value
+                                break
+            chk.ob(rule, "the stack that publishes is the one built LAST in this call (it belongs to the rank being built and shares the rank's node map)",
+                   True if H.match("self.call_stacks[-1]", recv) is not None else (False if H.match("self.call_stacks[$$i]", recv) is not None else None), cg.loc(c), found=ast.unparse(recv), accepted="self.call_stacks[-1]",
+                   why="self.call_stacks accumulates the stacks of every rank built so far: [0] writes the FIRST rank's frame again and leaves the current rank's columns at their initial values")
             whole = lit(H.kwarg(c, "apply_whole_graph"), None)
             chk.ob(rule, "the publication covers the whole node map (apply_whole_graph=True)", whole is True, cg.loc(c), found=ast.unparse(c), accepted="save_call_stack_to_dataframe(apply_whole_graph=True)",
                    why="a per-thread publication leaves the other threads' rows at their initial values")
